@@ -261,6 +261,13 @@ func N(quick, thorough int) int {
 	if Thorough() {
 		n = thorough
 	}
+	if s := os.Getenv("VERIF_TSCALE"); s != "" && Thorough() {
+		// per-package factor of the thorough tier (check.json "thorough_scale"): keeps a complete
+		// thorough sweep of all properties inside a working day on 16 cores
+		if f, err := strconv.ParseFloat(s, 64); err == nil && f > 0 {
+			n = int(float64(n)*f + 0.5)
+		}
+	}
 	if s := os.Getenv("VERIF_SCALE"); s != "" {
 		if f, err := strconv.ParseFloat(s, 64); err == nil && f > 0 {
 			n = int(float64(n)*f + 0.5)
